@@ -243,6 +243,20 @@ impl Nat {
         rem as u32
     }
 
+    /// floor(self / 10^q)
+    pub fn div_pow10(&self, q: u32) -> Nat {
+        let mut n = self.clone();
+        let mut left = q;
+        while left >= 9 {
+            n.divrem_small(1_000_000_000);
+            left -= 9;
+        }
+        if left > 0 {
+            n.divrem_small(10u32.pow(left));
+        }
+        n
+    }
+
     /// ASCII decimal digits, most significant first ("" for zero).
     pub fn to_decimal(&self) -> Vec<u8> {
         let mut n = self.clone();
@@ -358,6 +372,9 @@ pub fn selftest(seed: u64) -> Result<u64, String> {
     }
     if Nat::pow_fast(10, 30).to_decimal() != b"1000000000000000000000000000000" {
         return Err("10^30".into());
+    }
+    if Nat::pow_fast(10, 40).add_u64(7).div_pow10(38).to_u64() != Some(100) {
+        return Err("div_pow10".into());
     }
     let x = Nat::from_limbs64(&[1, 2, 3, 0, 0]);
     if x.to_limbs64() != vec![1, 2, 3] || x.limbs64() != 3 {
